@@ -295,21 +295,21 @@ func (g *gen) newNode(q nodeReq) string {
 	}
 	if g.s.State && r.Prob(0.25) {
 		n.Pre = n.inPort()
-		if r.Prob(0.08) {
+		if r.Prob(0.15) {
 			n.Pre = pickType(r)
 		}
 		n.PreStream = r.Prob(0.3)
-		if r.Prob(0.04) {
+		if r.Prob(0.18) {
 			n.PreState = 1
 		}
 	}
 	if g.s.State && r.Prob(0.25) {
 		n.Post = n.outPort()
-		if r.Prob(0.08) {
+		if r.Prob(0.15) {
 			n.Post = pickType(r)
 		}
 		n.PostStream = r.Prob(0.3)
-		if r.Prob(0.04) {
+		if r.Prob(0.18) {
 			n.PostState = 1
 		}
 	}
